@@ -4,6 +4,7 @@
 mod common;
 mod strings;
 mod suite_entity;
+mod suite_idmap;
 mod suite_tree;
 mod tree;
 
@@ -24,6 +25,7 @@ fn main() {
     match suite {
         "entity" => suite_entity::run(seed, count, tier, &mut sink),
         "tree" => suite_tree::run(seed, count, tier, &mut sink),
+        "idmap" => suite_idmap::run(seed, count, tier, &mut sink),
         _ => {
             eprintln!("unknown suite {}", suite);
             std::process::exit(2);
